@@ -18,13 +18,14 @@ D_MAX_MS = 10**10
 
 def install():
     C.stub(M, "int", S.sym_int)
+    C.shadow_module(FPI)
 
 
-def mklist(x, pfx, n, nonoverlap, ordered=False, dmin=0):
+def mklist(x, pfx, n, nonoverlap, ordered=False, dmin=0, dmax=D_MAX_MS):
     T, D = [], []
     for i in range(n):
         k = x.zint("%sk%d" % (pfx, i), 0, T_MAX_MS)
-        m = x.zint("%sm%d" % (pfx, i), dmin, D_MAX_MS)
+        m = x.ranged("%sm%d" % (pfx, i), dmin, dmax)
         T.append(k * 1000)
         D.append(m * 1000)
     for i in range(n):
@@ -118,6 +119,10 @@ def harnesses(tier):
     for n1, n2, ordered, budget in fpi:
         hs.append((Harness(PROP, "intersect-%d+%d-%s" % (n1, n2, "sorted" if ordered else "anyorder"), h_fpi, dict(n1=n1, n2=n2, ordered=ordered),
                            "filter_period_intersect, %d events x %d filter events" % (n1, n2), split_depth=7), budget))
+    # float-semantics variants: whatever float arithmetic the code performs on instants / durations follows IEEE
+    # double rounding (the current code performs none: these are there for the day it does)
+    hs.append((Harness(PROP, "intersect-1+1-float-semantics", C.with_floats(h_fpi), dict(n1=1, n2=1), "filter_period_intersect 1x1 with IEEE double semantics for any float arithmetic, durations < 2^17 ms in binary range pieces", split_depth=7, fresh_solver=True), 600))
+    hs.append((Harness(PROP, "union-1+1-float-semantics", C.with_floats(h_union), dict(n1=1, n2=1), "period_union 1+1 with IEEE double semantics for any float arithmetic, durations < 2^17 ms in binary range pieces", split_depth=7, fresh_solver=True), 600))
     for n1, n2, budget in un:
         hs.append((Harness(PROP, "union-%d+%d" % (n1, n2), h_union, dict(n1=n1, n2=n2), "period_union of arbitrary lists (%d, %d events), any order" % (n1, n2), split_depth=7), budget))
     return hs
